@@ -10,13 +10,14 @@ Contract (WF, INPUT gates without operands):
   E4  every non-input gate has a larger identifier than each of its operands (the decoder must already know them), and an
       identifier >= the number of inputs;
   E5  the dictionary has as many keys as identifiers were handed out, each new key receiving the current length (so that the
-      insertion order, which _encode_circuit_body iterates, is the identifier order);  the circuit is untouched.
+      insertion order, which _encode_circuit_body iterates, is the identifier order: E6 the i-th key has identifier i, E7 every
+      identifier is below the number of keys);  the circuit is untouched.
 Loop 1 (inputs) and loop 2 (top_sort through its contract, proved under C20: every gate once, operands first) by invariants; the
 number of non-input gates among the first j yielded gates is the ghost counting function c (c(0) = 0, c(j+1) = c(j) + [y(j) is
 not an input]); its monotonicity / strictness are the Lean lemmas cnt_mono / cnt_strict (lean/Background.lean)."""
 import z3
 
-from ..pyvc.values import Sym, LabelSort, GT, Obj, Unsupported, VDict
+from ..pyvc.values import Sym, LabelSort, GT, Obj, Unsupported, VDict, Native
 from ..pyvc.interp import Model, _simp
 from ..pyvc import circuit_model as CM
 from .C02 import CircuitContract, CIRC
@@ -32,8 +33,9 @@ _K = [0]
 class NumMap(Model):
     """dict label -> int in functional form: dom, val, n = number of keys"""
 
-    def __init__(self, dom, val, n):
+    def __init__(self, dom, val, n, key_at=None):
         self.dom, self.val, self.n = dom, val, n
+        self.key_at = key_at or (lambda i: z3.Const('nokey', LabelSort))      # insertion order: the i-th key
         self.not_len_at_insert = False          # ghost: some new key was stored with a value other than the current length
 
     def m_len(self, it):
@@ -58,7 +60,32 @@ class NumMap(Model):
             self.not_len_at_insert = True
         self.dom = lambda l: z3.Or(l == kt, od(l))
         self.val = lambda l: z3.If(l == kt, vt, ov(l))
+        ok, n0 = self.key_at, self.n
+        self.key_at = lambda i: z3.If(i == n0, kt, ok(i))
         self.n = self.n + 1
+
+    def m_getattr(self, it, name):
+        if name == 'keys':
+            return Native('NumMap.keys', lambda: KeySeq(self))
+        raise Unsupported('identifier map .' + name)
+
+
+class KeySeq(Model):
+    """d.keys(): the keys in insertion order (symbolic length); iteration only under a loop invariant"""
+    prefix = []
+
+    def __init__(self, m):
+        self.m = m
+        self.n = m.n
+
+    def elem(self, i):
+        return Sym(self.m.key_at(i))
+
+    def concrete_len(self, it=None):
+        return None
+
+    def m_len(self, it):
+        return Sym(self.n)
 
 
 def view(it, env):
@@ -66,15 +93,16 @@ def view(it, env):
     if isinstance(r, VDict):
         if r.d:
             raise Unsupported('result is not empty before the first loop')
-        return (lambda l: z3.BoolVal(False)), (lambda l: z3.IntVal(0)), z3.IntVal(0)
-    return r.dom, r.val, r.n
+        return (lambda l: z3.BoolVal(False)), (lambda l: z3.IntVal(0)), z3.IntVal(0), (lambda i: z3.Const('nokey', LabelSort))
+    return r.dom, r.val, r.n, r.key_at
 
 
 def fresh_map(ctx):
     _K[0] += 1
     d = z3.Function(f'num_dom!{_K[0]}', LabelSort, B)
     v = z3.Function(f'num_val!{_K[0]}', LabelSort, I)
-    return NumMap(lambda l: d(l), lambda l: v(l), ctx.fresh(I, 'nkeys'))
+    ka = z3.Function(f'num_key!{_K[0]}', I, LabelSort)
+    return NumMap(lambda l: d(l), lambda l: v(l), ctx.fresh(I, 'nkeys'), lambda i: ka(i))
 
 
 class InputsLoop:
@@ -89,8 +117,9 @@ class InputsLoop:
 
     def _f(self, it, env, k, l, i):
         S0 = self.c.S0
-        dom, val, n = view(it, env)
+        dom, val, n, key_at = view(it, env)
         return [('length', n == k),
+                ('key-sequence', z3.Implies(z3.And(i >= 0, i < n), z3.And(dom(key_at(i)), val(key_at(i)) == i))),
                 ('seen-inputs-numbered', z3.Implies(z3.And(i >= 0, i < k), z3.And(dom(S0.in_elem(i)), val(S0.in_elem(i)) == i))),
                 ('only-seen-inputs-numbered', z3.Implies(dom(l), z3.And(S0.in_cnt(l) > 0, val(l) >= 0, val(l) < k, S0.in_elem(val(l)) == l)))]
 
@@ -114,9 +143,10 @@ class GatesLoop:
 
     def _f(self, it, env, k, l, i):
         S0, pos, cf = self.c.S0, self.c.pos, self.c.cf
-        dom, val, n = view(it, env)
+        dom, val, n, key_at = view(it, env)
         isin = lambda q: S0.typ(q) == GT['INPUT']       # noqa: E731
         return [('length', n == S0.in_n + cf(k)),
+                ('key-sequence', z3.Implies(z3.And(i >= 0, i < n), z3.And(dom(key_at(i)), val(key_at(i)) == i))),
                 ('inputs-keep-their-numbers', z3.Implies(z3.And(i >= 0, i < S0.in_n), z3.And(dom(S0.in_elem(i)), val(S0.in_elem(i)) == i))),
                 ('yielded-gates-numbered', z3.Implies(z3.And(S0.dom(l), z3.Not(isin(l)), pos(l) < k), z3.And(dom(l), val(l) == S0.in_n + cf(pos(l))))),
                 ('nothing-else-numbered', z3.Implies(dom(l), z3.And(S0.dom(l), z3.If(isin(l), z3.And(S0.in_cnt(l) > 0, val(l) >= 0, val(l) < S0.in_n, S0.in_elem(val(l)) == l),
@@ -186,6 +216,8 @@ class EnumerateGates(CircuitContract):
         yield ('E4/operands-have-smaller-identifiers', z3.Implies(z3.And(S0.dom(l), z3.Not(isin(l)), i >= 0, i < S0.nops(l)),
                                                                  z3.And(dom(S0.op(l, i)), val(S0.op(l, i)) < val(l), val(l) >= S0.in_n)))
         yield ('E5/length-is-the-number-of-identifiers', z3.And(n == S0.in_n + cf(S0.size), z3.BoolVal(not result.not_len_at_insert)))
+        yield ('E7/identifiers-below-the-number-of-keys', z3.Implies(dom(l), z3.And(val(l) >= 0, val(l) < n)))
+        yield ('E6/the-i-th-key-has-identifier-i', z3.Implies(z3.And(i >= 0, i < n), z3.And(dom(result.key_at(i)), val(result.key_at(i)) == i)))
         yield ('circuit-untouched', z3.BoolVal(not [e for e in st['h'].events if e[0] in ('gate-write', 'gate-del', 'users-alias', 'users-del')]))
 
     def on_raise(self, it, ctx, exc, st):
